@@ -145,9 +145,14 @@ func (w *world) update(i int, v []byte, how string) {
 		return
 	}
 	w.stats.Inc("mut")
-	before := refwmpt.Counts(w.model)
-	w.model[string(key)] = refwmpt.Entry{Key: string(key), Value: append([]byte{}, v...), Weight: wt}
-	w.retireShared(before)
+	if w.s.Huge {
+		// unique values: no stored node can be shared by two places, nothing to retire
+		w.model[string(key)] = refwmpt.Entry{Key: string(key), Value: append([]byte{}, v...), Weight: wt}
+	} else {
+		before := refwmpt.Counts(w.model)
+		w.model[string(key)] = refwmpt.Entry{Key: string(key), Value: append([]byte{}, v...), Weight: wt}
+		w.retireShared(before)
+	}
 	w.last[i%max(1, len(w.keys))] = append([]byte{}, v...)
 	w.clean = false
 	w.changedSinceCP = true
@@ -182,9 +187,13 @@ func (w *world) delete(op WOp) {
 		}
 		w.stats.Inc("mut")
 		w.stats.Inc("probe.delete-present")
-		before := refwmpt.Counts(w.model)
-		delete(w.model, string(key))
-		w.retireShared(before)
+		if w.s.Huge {
+			delete(w.model, string(key))
+		} else {
+			before := refwmpt.Counts(w.model)
+			delete(w.model, string(key))
+			w.retireShared(before)
+		}
 		w.clean = false
 		w.changedSinceCP = true
 	} else {
